@@ -141,9 +141,39 @@ Definition g_enc_consensus_V1BlockSupplement : shape := (HSeq [(HSlice g_enc_con
 Definition g_dec_consensus_V1BlockSupplement : shape := (HSeq [(HSlice g_dec_consensus_V1TransactionSupplement); (HSlice g_dec_types_FileContractElement)]).
 Definition g_enc_gateway_Header : shape := (HSeq [g_enc_types_BlockID; (HFixed 8); HBytes]).
 Definition g_dec_gateway_Header : shape := (HSeq [g_dec_types_BlockID; (HFixed 8); HBytes]).
+Definition g_enc_gateway_RPCDiscoverIP_response : shape := (HSeq [HBytes]).
+Definition g_dec_gateway_RPCDiscoverIP_response : shape := (HSeq [HBytes]).
 Definition g_enc_gateway_V2BlockOutline : shape := HNamed "gateway.V2BlockOutline".
 Definition g_dec_gateway_V2BlockOutline : shape := HNamed "gateway.V2BlockOutline".
 (* opaque because: enc statement switch { case ot.Transaction != nil: txns = append(txns, *ot.Transaction) kinds = append(kinds, 0) case ot.V2Transaction != nil: v2txns = append(v2txns, *ot.V2Transaction) kinds = append(kinds, 1) default: hashes = append(hashes, ot.Hash) kinds = append(kinds, 2) } | dec statement for i := range kinds { kinds[i] = d.ReadUint8() if kinds[i] > 2 { d.SetErr(fmt.Errorf("invalid outline transaction type (%d)", kinds[i])) return } counts[kinds[i]]++ } *)
+Definition g_enc_gateway_RPCRelayV2BlockOutline_request : shape := (HSeq [g_enc_gateway_V2BlockOutline]).
+Definition g_dec_gateway_RPCRelayV2BlockOutline_request : shape := (HSeq [g_dec_gateway_V2BlockOutline]).
+Definition g_enc_gateway_RPCRelayV2Header_request : shape := (HSeq [g_enc_types_BlockHeader]).
+Definition g_dec_gateway_RPCRelayV2Header_request : shape := (HSeq [g_dec_types_BlockHeader]).
+Definition g_enc_gateway_RPCRelayV2TransactionSet_request : shape := (HSeq [g_enc_types_ChainIndex; (HSlice g_enc_types_V2Transaction)]).
+Definition g_dec_gateway_RPCRelayV2TransactionSet_request : shape := (HSeq [g_dec_types_ChainIndex; (HSlice g_dec_types_V2Transaction)]).
+Definition g_enc_gateway_RPCSendCheckpoint_request : shape := (HSeq [g_enc_types_ChainIndex]).
+Definition g_dec_gateway_RPCSendCheckpoint_request : shape := (HSeq [g_dec_types_ChainIndex]).
+Definition g_enc_gateway_RPCSendCheckpoint_response : shape := (HSeq [g_enc_types_V2Block; g_enc_consensus_State]).
+Definition g_dec_gateway_RPCSendCheckpoint_response : shape := (HSeq [g_dec_types_V2Block; g_dec_consensus_State]).
+Definition g_enc_gateway_RPCSendHeaders_request : shape := (HSeq [g_enc_types_ChainIndex; HU64]).
+Definition g_dec_gateway_RPCSendHeaders_request : shape := (HSeq [g_dec_types_ChainIndex; HU64]).
+Definition g_enc_gateway_RPCSendHeaders_response : shape := (HSeq [(HSlice g_enc_types_BlockHeader); HU64]).
+Definition g_dec_gateway_RPCSendHeaders_response : shape := (HSeq [(HSlice g_dec_types_BlockHeader); HU64]).
+Definition g_enc_gateway_RPCSendTransactions_request : shape := (HSeq [g_enc_types_ChainIndex; (HSlice g_enc_types_Hash256)]).
+Definition g_dec_gateway_RPCSendTransactions_request : shape := (HSeq [g_dec_types_ChainIndex; (HSlice g_dec_types_Hash256)]).
+Definition g_enc_gateway_RPCSendTransactions_response : shape := (HSeq [(HSlice g_enc_types_Transaction); (HSlice g_enc_types_V2Transaction)]).
+Definition g_dec_gateway_RPCSendTransactions_response : shape := (HSeq [(HSlice g_dec_types_Transaction); (HSlice g_dec_types_V2Transaction)]).
+Definition g_enc_gateway_RPCSendV2Blocks_request : shape := (HSeq [(HSlice g_enc_types_BlockID); HU64]).
+Definition g_dec_gateway_RPCSendV2Blocks_request : shape := (HSeq [(HSlice g_dec_types_BlockID); HU64]).
+Definition g_enc_gateway_RPCSendV2Blocks_response : shape := (HSeq [(HSlice g_enc_types_V2Block); HU64]).
+Definition g_dec_gateway_RPCSendV2Blocks_response : shape := (HSeq [(HSlice g_dec_types_V2Block); HU64]).
+Definition g_enc_gateway_RPCShareNodes_response : shape := (HSeq [(HSlice HBytes)]).
+Definition g_dec_gateway_RPCShareNodes_response : shape := (HSeq [(HSlice HBytes)]).
+Definition g_enc_gateway_emptyRequest_request : shape := (HSeq []).
+Definition g_dec_gateway_emptyRequest_request : shape := (HSeq []).
+Definition g_enc_gateway_emptyResponse_response : shape := (HSeq []).
+Definition g_dec_gateway_emptyResponse_response : shape := (HSeq []).
 Definition g_enc_rhp_v2_Challenge : shape := (HSeq [(HFixed 16)]).
 Definition g_dec_rhp_v2_Challenge : shape := (HSeq [(HFixed 16)]).
 Definition g_enc_rhp_v2_RPCError : shape := (HSeq [g_enc_types_Specifier; HBytes; HBytes]).
@@ -431,6 +461,21 @@ Definition golden_types : list (string * shape * shape) := [
   ("consensus.V1TransactionSupplement", g_enc_consensus_V1TransactionSupplement, g_dec_consensus_V1TransactionSupplement);
   ("consensus.V1BlockSupplement", g_enc_consensus_V1BlockSupplement, g_dec_consensus_V1BlockSupplement);
   ("gateway.Header", g_enc_gateway_Header, g_dec_gateway_Header);
+  ("gateway.RPCDiscoverIP#response", g_enc_gateway_RPCDiscoverIP_response, g_dec_gateway_RPCDiscoverIP_response);
+  ("gateway.RPCRelayV2BlockOutline#request", g_enc_gateway_RPCRelayV2BlockOutline_request, g_dec_gateway_RPCRelayV2BlockOutline_request);
+  ("gateway.RPCRelayV2Header#request", g_enc_gateway_RPCRelayV2Header_request, g_dec_gateway_RPCRelayV2Header_request);
+  ("gateway.RPCRelayV2TransactionSet#request", g_enc_gateway_RPCRelayV2TransactionSet_request, g_dec_gateway_RPCRelayV2TransactionSet_request);
+  ("gateway.RPCSendCheckpoint#request", g_enc_gateway_RPCSendCheckpoint_request, g_dec_gateway_RPCSendCheckpoint_request);
+  ("gateway.RPCSendCheckpoint#response", g_enc_gateway_RPCSendCheckpoint_response, g_dec_gateway_RPCSendCheckpoint_response);
+  ("gateway.RPCSendHeaders#request", g_enc_gateway_RPCSendHeaders_request, g_dec_gateway_RPCSendHeaders_request);
+  ("gateway.RPCSendHeaders#response", g_enc_gateway_RPCSendHeaders_response, g_dec_gateway_RPCSendHeaders_response);
+  ("gateway.RPCSendTransactions#request", g_enc_gateway_RPCSendTransactions_request, g_dec_gateway_RPCSendTransactions_request);
+  ("gateway.RPCSendTransactions#response", g_enc_gateway_RPCSendTransactions_response, g_dec_gateway_RPCSendTransactions_response);
+  ("gateway.RPCSendV2Blocks#request", g_enc_gateway_RPCSendV2Blocks_request, g_dec_gateway_RPCSendV2Blocks_request);
+  ("gateway.RPCSendV2Blocks#response", g_enc_gateway_RPCSendV2Blocks_response, g_dec_gateway_RPCSendV2Blocks_response);
+  ("gateway.RPCShareNodes#response", g_enc_gateway_RPCShareNodes_response, g_dec_gateway_RPCShareNodes_response);
+  ("gateway.emptyRequest#request", g_enc_gateway_emptyRequest_request, g_dec_gateway_emptyRequest_request);
+  ("gateway.emptyResponse#response", g_enc_gateway_emptyResponse_response, g_dec_gateway_emptyResponse_response);
   ("rhp/v2.Challenge", g_enc_rhp_v2_Challenge, g_dec_rhp_v2_Challenge);
   ("rhp/v2.RPCError", g_enc_rhp_v2_RPCError, g_dec_rhp_v2_RPCError);
   ("rhp/v2.RPCFormContractAdditions", g_enc_rhp_v2_RPCFormContractAdditions, g_dec_rhp_v2_RPCFormContractAdditions);
@@ -623,7 +668,22 @@ Definition golden_fields : list (string * list string * list string) := [
   ("consensus.V1TransactionSupplement", ["SiacoinInputs"; "SiafundInputs"; "RevisedFileContracts"; "StorageProofs"], ["ts.SiacoinInputs"; "ts.SiafundInputs"; "ts.RevisedFileContracts"; "ts.StorageProofs"]);
   ("consensus.V1BlockSupplement", ["Transactions"; "ExpiringFileContracts"], ["bs.Transactions"; "bs.ExpiringFileContracts"]);
   ("gateway.Header", ["GenesisID"; "UniqueID"; "NetAddress"], ["h.GenesisID"; "h.UniqueID"; "h.NetAddress"]);
+  ("gateway.RPCDiscoverIP#response", ["emptyRequest"; "IP"], ["r.IP"]);
   ("gateway.V2BlockOutline", ["Height"; "ParentID"; "Nonce"; "Timestamp"; "MinerAddress"; "Transactions"], ["ob.Height"; "ob.ParentID"; "ob.Nonce"; "ob.Timestamp"; "ob.MinerAddress"; "ob.Transactions"; "txns"; "types.V2TransactionsMultiproof(v2txns)"; "hashes"; "kinds"; "kinds[i]"]);
+  ("gateway.RPCRelayV2BlockOutline#request", ["Block"; "emptyResponse"], ["r.Block"]);
+  ("gateway.RPCRelayV2Header#request", ["Header"; "emptyResponse"], ["r.Header"]);
+  ("gateway.RPCRelayV2TransactionSet#request", ["Index"; "Transactions"; "emptyResponse"], ["r.Index"; "r.Transactions"]);
+  ("gateway.RPCSendCheckpoint#request", ["Index"; "Block"; "State"], ["r.Index"]);
+  ("gateway.RPCSendCheckpoint#response", ["Index"; "Block"; "State"], ["(types.V2Block)(r.Block)"; "r.State"]);
+  ("gateway.RPCSendHeaders#request", ["Index"; "Max"; "Headers"; "Remaining"], ["r.Index"; "r.Max"]);
+  ("gateway.RPCSendHeaders#response", ["Index"; "Max"; "Headers"; "Remaining"], ["r.Headers"; "r.Remaining"]);
+  ("gateway.RPCSendTransactions#request", ["Index"; "Hashes"; "Transactions"; "V2Transactions"], ["r.Index"; "r.Hashes"]);
+  ("gateway.RPCSendTransactions#response", ["Index"; "Hashes"; "Transactions"; "V2Transactions"], ["r.Transactions"; "r.V2Transactions"]);
+  ("gateway.RPCSendV2Blocks#request", ["History"; "Max"; "Blocks"; "Remaining"], ["r.History"; "r.Max"]);
+  ("gateway.RPCSendV2Blocks#response", ["History"; "Max"; "Blocks"; "Remaining"], ["r.Blocks"; "r.Remaining"]);
+  ("gateway.RPCShareNodes#response", ["emptyRequest"; "Peers"], ["r.Peers"]);
+  ("gateway.emptyRequest#request", [], []);
+  ("gateway.emptyResponse#response", [], []);
   ("rhp/v2.Challenge", [], ["c"]);
   ("rhp/v2.RPCError", ["Type"; "Data"; "Description"], ["r.Type"; "r.Data"; "r.Description"]);
   ("rhp/v2.RPCFormContractAdditions", ["Parents"; "Inputs"; "Outputs"], ["r.Parents"; "r.Inputs"; "r.Outputs"]);
@@ -802,7 +862,22 @@ Definition golden_written : list (string * list string * list string) := [
   ("consensus.V1TransactionSupplement", ["ts.SiacoinInputs"; "ts.SiafundInputs"; "ts.RevisedFileContracts"; "ts.StorageProofs"], []);
   ("consensus.V1BlockSupplement", ["bs.Transactions"; "bs.ExpiringFileContracts"], []);
   ("gateway.Header", ["h.GenesisID"; "h.UniqueID"; "h.NetAddress"], []);
+  ("gateway.RPCDiscoverIP#response", ["r.IP"], []);
   ("gateway.V2BlockOutline", ["ob.Height"; "ob.ParentID"; "ob.Nonce"; "ob.Timestamp"; "ob.MinerAddress"; "txns"; "types.V2TransactionsMultiproof(v2txns)"; "hashes"; "kinds[i]"], []);
+  ("gateway.RPCRelayV2BlockOutline#request", ["r.Block"], []);
+  ("gateway.RPCRelayV2Header#request", ["r.Header"], []);
+  ("gateway.RPCRelayV2TransactionSet#request", ["r.Index"; "r.Transactions"], []);
+  ("gateway.RPCSendCheckpoint#request", ["r.Index"], []);
+  ("gateway.RPCSendCheckpoint#response", ["(types.V2Block)(r.Block)"; "r.State"], []);
+  ("gateway.RPCSendHeaders#request", ["r.Index"; "r.Max"], []);
+  ("gateway.RPCSendHeaders#response", ["r.Headers"; "r.Remaining"], []);
+  ("gateway.RPCSendTransactions#request", ["r.Index"; "r.Hashes"], []);
+  ("gateway.RPCSendTransactions#response", ["r.Transactions"; "r.V2Transactions"], []);
+  ("gateway.RPCSendV2Blocks#request", ["r.History"; "r.Max"], []);
+  ("gateway.RPCSendV2Blocks#response", ["r.Blocks"; "r.Remaining"], []);
+  ("gateway.RPCShareNodes#response", ["r.Peers"], []);
+  ("gateway.emptyRequest#request", [], []);
+  ("gateway.emptyResponse#response", [], []);
   ("rhp/v2.Challenge", ["c"], []);
   ("rhp/v2.RPCError", ["r.Type"; "r.Data"; "r.Description"], []);
   ("rhp/v2.RPCFormContractAdditions", ["r.Parents"; "r.Inputs"; "r.Outputs"], []);
